@@ -300,6 +300,7 @@ func allRefs(v any, out map[string]bool) {
 // ---- observation of the loaded document ----
 type lobs struct {
 	out map[string]*int64
+	all bool // also list inline objects (C16 compares positions whether or not they are references)
 }
 
 func idOfStr(d string) *int64 {
@@ -323,6 +324,8 @@ func (o *lobs) schema(prefix string, r *openapi3.SchemaRef, hops int) {
 			return
 		}
 		prefix, hops = prefix+"\x1f->", hops-1
+	} else if o.all && r.Value != nil {
+		o.out[prefix] = idOfStr(r.Value.Description)
 	}
 	v := r.Value
 	if v == nil {
@@ -345,6 +348,9 @@ func (o *lobs) schema(prefix string, r *openapi3.SchemaRef, hops int) {
 	}
 }
 func (o *lobs) example(prefix string, r *openapi3.ExampleRef) {
+	if r != nil && r.Ref == "" && o.all && r.Value != nil {
+		o.out[prefix] = idOfStr(r.Value.Description)
+	}
 	if r == nil || r.Ref == "" {
 		return
 	}
@@ -355,6 +361,9 @@ func (o *lobs) example(prefix string, r *openapi3.ExampleRef) {
 	o.out[prefix] = idOfStr(r.Value.Description)
 }
 func (o *lobs) link(prefix string, r *openapi3.LinkRef) {
+	if r != nil && r.Ref == "" && o.all && r.Value != nil {
+		o.out[prefix] = idOfStr(r.Value.Description)
+	}
 	if r == nil || r.Ref == "" {
 		return
 	}
@@ -365,6 +374,9 @@ func (o *lobs) link(prefix string, r *openapi3.LinkRef) {
 	o.out[prefix] = idOfStr(r.Value.Description)
 }
 func (o *lobs) scheme(prefix string, r *openapi3.SecuritySchemeRef) {
+	if r != nil && r.Ref == "" && o.all && r.Value != nil {
+		o.out[prefix] = idOfStr(r.Value.Description)
+	}
 	if r == nil || r.Ref == "" {
 		return
 	}
@@ -396,6 +408,8 @@ func (o *lobs) paramLike(prefix string, ref string, v *openapi3.Parameter, hops 
 			return
 		}
 		prefix, hops = prefix+"\x1f->", hops-1
+	} else if o.all && v != nil {
+		o.out[prefix] = idOfStr(v.Description)
 	}
 	if v == nil {
 		return
@@ -435,6 +449,8 @@ func (o *lobs) requestBody(prefix string, r *openapi3.RequestBodyRef, hops int) 
 			return
 		}
 		prefix, hops = prefix+"\x1f->", hops-1
+	} else if o.all && r.Value != nil {
+		o.out[prefix] = idOfStr(r.Value.Description)
 	}
 	if r.Value != nil {
 		o.media(prefix, r.Value.Content, hops)
@@ -458,6 +474,8 @@ func (o *lobs) response(prefix string, r *openapi3.ResponseRef, hops int) {
 			return
 		}
 		prefix, hops = prefix+"\x1f->", hops-1
+	} else if o.all && r.Value != nil && r.Value.Description != nil {
+		o.out[prefix] = idOfStr(*r.Value.Description)
 	}
 	v := r.Value
 	if v == nil {
@@ -472,8 +490,19 @@ func (o *lobs) response(prefix string, r *openapi3.ResponseRef, hops int) {
 	}
 }
 
-func observeDoc(doc *openapi3.T) map[string]*int64 {
-	o := &lobs{out: map[string]*int64{}}
+func observeDoc(doc *openapi3.T) map[string]*int64 { return observeDocMode(doc, false) }
+
+// every object position (references followed, hop markers removed): position -> id
+func observeAll(doc *openapi3.T) map[string]*int64 {
+	out := map[string]*int64{}
+	for k, v := range observeDocMode(doc, true) {
+		out[strings.ReplaceAll(k, "\x1f->", "")] = v
+	}
+	return out
+}
+
+func observeDocMode(doc *openapi3.T, all bool) map[string]*int64 {
+	o := &lobs{out: map[string]*int64{}, all: all}
 	const hops = 2
 	if c := doc.Components; c != nil {
 		for k, v := range c.Headers {
@@ -1119,7 +1148,13 @@ func init() {
 		for i := int(seed); i < len(cases); i++ {
 			fmt.Printf("start %d\n", i)
 			os.Stdout.Sync()
+			wd := time.AfterFunc(8*time.Second, func() {
+				fmt.Printf("done %d load: timeout;\n", i)
+				os.Stdout.Sync()
+				os.Exit(3)
+			})
 			r := afterOps(&cases[i])
+			wd.Stop()
 			fmt.Printf("done %d %s\n", i, strings.TrimSuffix(r, "EXIT"))
 			os.Stdout.Sync()
 			if strings.HasSuffix(r, "EXIT") {
@@ -1131,6 +1166,11 @@ func init() {
 
 // runs the child over all cases; returns, per case index, what went wrong ("" = nothing)
 func c20After(cases []LCase, outDir string) map[int]string {
+	return runInChildren("C20after", cases, outDir)
+}
+
+// runInChildren: the child runner `prop` prints "start i" / "done i <text>" per case and exits(3) after a timeout
+func runInChildren(prop string, cases []LCase, outDir string) map[int]string {
 	res := map[int]string{}
 	var mu sync.Mutex
 	var wg sync.WaitGroup
@@ -1146,18 +1186,22 @@ func c20After(cases []LCase, outDir string) map[int]string {
 				mine = append(mine, cases[i])
 				orig = append(orig, i)
 			}
-			fn := filepath.Join(outDir, fmt.Sprintf("after_cases_%d.json", w))
+			fn := filepath.Join(outDir, fmt.Sprintf("child_%s_%d.json", prop, w))
 			b, _ := json.Marshal(map[string]any{"cases": mine})
 			must(os.WriteFile(fn, b, 0o644))
 			defer os.Remove(fn)
 			for start := 0; start < len(mine); {
-				cmd := exec.Command(self, "-prop", "C20after", "-seed", fmt.Sprint(start), "-out", outDir, "-replay", fn)
+				cmd := exec.Command(self, "-prop", prop, "-seed", fmt.Sprint(start), "-out", outDir, "-replay", fn)
 				outb, _ := cmd.Output()
 				last, finished := start-1, true
+				lastPhase := ""
 				for _, line := range strings.Split(string(outb), "\n") {
 					var i int
-					if n, _ := fmt.Sscanf(line, "start %d", &i); n == 1 {
+					if strings.HasPrefix(line, "phase ") {
+						lastPhase = strings.TrimPrefix(line, "phase ")
+					} else if n, _ := fmt.Sscanf(line, "start %d", &i); n == 1 {
 						last, finished = i, false
+						lastPhase = ""
 					} else if strings.HasPrefix(line, "done ") {
 						parts := strings.SplitN(line, " ", 3)
 						fmt.Sscan(parts[1], &i)
@@ -1171,7 +1215,7 @@ func c20After(cases []LCase, outDir string) map[int]string {
 				}
 				if !finished && last >= 0 {
 					mu.Lock()
-					res[orig[last]] = "fatal: the process died (stack overflow) in validate / marshal / internalize"
+					res[orig[last]] = "fatal: the process died (stack overflow) " + lastPhase
 					mu.Unlock()
 				}
 				if last < start {
